@@ -301,9 +301,9 @@ def is_separable(state: np.ndarray, dim: None | int | list[int] = None, level: i
         if np.remainder(dim[p], 2) == 0:
             phi = max_entangled(dim[p], False, False)
             U = np.kron(
-                np.eye(dim[p]), np.fliplr(np.diag(np.array([[np.ones((dim[p] / 2, 1))], [-np.ones(dim(p) / 2, 1)]])))
+                np.eye(dim[p]), np.fliplr(np.diag(np.concatenate((np.ones(dim[p] // 2), -np.ones(dim[p] // 2)))))
             )
-            Phi = np.diag(np.ones((dim[p] ** 2, 1))) - phi @ phi.conj().T - U @ swap_operator(dim[p]) @ U.conj().T
+            Phi = np.eye(dim[p] ** 2) - phi @ phi.conj().T - U @ swap_operator(dim[p]) @ U.conj().T
 
             # Determined to be entangled via the Breuer-Hall positive maps based on antisymmetric unitary matrices.
             # See (Breuer_2006_Mixed) and (Hall_2006_Indecomposable).
